@@ -246,6 +246,19 @@ CHECKS = {
         assumptions=["edits outside the documented catalogue are not generated", "byte<->i8 retypes and enum value swaps are in neither category and are not generated"],
         design_ref="DESIGN.md §2 C18",
     ),
+    "C19": dict(
+        title="Code generation is deterministic and location-independent",
+        legs=[leg("TestC19Determinism", module="idl", quick=(60, 4), thorough=(1500, 16), timeout_s=3000, prefixes=["c19."])],
+        level="exploration",
+        technique="property-based testing (rapid): metamorphic relation over repeated and relocated compilations of generated multi-file programs (identical file-set digests)",
+        rule=("Valid programs sized up (up to 5 files, sub-directories, doubled declaration counts) x one of 28 target/option combinations (java generated_annotations=use excluded) x -delim: compiled 3 times in-process at one location, "
+              "once from a copy of the source tree at a different absolute path with a different -out, and (every 4th case) twice through the CLI from different working directories with relative source and -out paths and different HOME/TMPDIR. "
+              "Non-trivial: >=3 files with >=2 services/scopes, or >=3 includes. Distinct: sha256 of (text, target, delim)."),
+        level_text="Exploration: the multiset {(path relative to -out, sha256)} must be identical across all runs of one (program, target, options); the first differing line is reported.",
+        level_note="Trusted: sha256, the file walker. Different machines / Go versions are out of reach.",
+        assumptions=["programs that do not compile are out of this property's domain (C11 judges them)"],
+        design_ref="DESIGN.md §2 C19",
+    ),
 }
 
 NOT_APPLICABLE = [
